@@ -7,6 +7,7 @@ import (
 	"net/http"
 	"sort"
 	"strings"
+	"sync"
 	"testing"
 	"time"
 
@@ -26,12 +27,30 @@ type Case struct {
 	Mutated   bool     `json:"mutated,omitempty"`
 	Preview   string   `json:"preview"`
 	Classes   []string `json:"classes,omitempty"`
+	// MaxBody: the engine's MaxHTTPBodySize (0 = unlimited). Whether a body is within it depends on the
+	// message alone, so acceptance and rejection must still be independent of the segmentation. (ReadLimit
+	// is not varied here: it bounds what is buffered between reads and legitimately depends on them.)
+	MaxBody int `json:"max_body,omitempty"`
 }
 
 var inline = func(f func()) { f() }
 
-func newEngine() *nbhttp.Engine {
-	return nbhttp.NewEngine(nbhttp.Config{ServerExecutor: inline, ClientExecutor: inline, SupportServerOnly: true})
+func newEngine() *nbhttp.Engine { return engineFor(0) }
+
+var (
+	engMu   sync.Mutex
+	engines = map[int]*nbhttp.Engine{}
+)
+
+func engineFor(maxBody int) *nbhttp.Engine {
+	engMu.Lock()
+	defer engMu.Unlock()
+	e := engines[maxBody]
+	if e == nil {
+		e = nbhttp.NewEngine(nbhttp.Config{ServerExecutor: inline, ClientExecutor: inline, SupportServerOnly: true, MaxHTTPBodySize: maxBody})
+		engines[maxBody] = e
+	}
+	return e
 }
 
 type recProc struct {
@@ -120,13 +139,13 @@ func hdrString(h http.Header) string {
 	return sb.String()
 }
 
-func traceReal(client bool, segs [][]byte) string {
+func traceReal(client bool, segs [][]byte, maxBody int) string {
 	var msgs []string
 	conn := &vlib.FakeConn{}
 	var engine *nbhttp.Engine
 	var proc nbhttp.Processor
 	if !client {
-		engine = nbhttp.NewEngine(nbhttp.Config{ServerExecutor: inline, ClientExecutor: inline, SupportServerOnly: true,
+		engine = nbhttp.NewEngine(nbhttp.Config{ServerExecutor: inline, ClientExecutor: inline, SupportServerOnly: true, MaxHTTPBodySize: maxBody,
 			Handler: http.HandlerFunc(func(w http.ResponseWriter, r *http.Request) {
 				body, _ := io.ReadAll(r.Body)
 				msgs = append(msgs, fmt.Sprintf("REQ %q %q %q host=%q close=%v te=%q hdr={%s} body=%q trailer={%s}",
@@ -134,7 +153,7 @@ func traceReal(client bool, segs [][]byte) string {
 			})})
 		proc = nbhttp.NewServerProcessor()
 	} else {
-		engine = newEngine()
+		engine = engineFor(maxBody)
 		proc = nbhttp.NewClientProcessor(&nbhttp.ClientConn{Engine: engine}, func(res *http.Response, err error) {
 			if err != nil || res == nil {
 				msgs = append(msgs, fmt.Sprintf("RESERR %v", err))
@@ -195,8 +214,12 @@ func runCase(c Case) vlib.Result {
 func runCaseInner(c Case) vlib.Result {
 	res := vlib.Result{Classes: append([]string{}, c.Classes...)}
 	whole := [][]byte{c.Stream}
-	wantRec := traceRec(sharedEngine, c.Client, whole)
-	wantReal := traceReal(c.Client, whole)
+	eng := engineFor(c.MaxBody)
+	wantRec := traceRec(eng, c.Client, whole)
+	wantReal := traceReal(c.Client, whole, c.MaxBody)
+	if c.MaxBody > 0 {
+		res.Classes = append(res.Classes, "max-body-size-configured")
+	}
 	if c.Client {
 		res.Classes = append(res.Classes, "side=client")
 	} else {
@@ -209,10 +232,10 @@ func runCaseInner(c Case) vlib.Result {
 	}
 	check := func(cuts []int) error {
 		segs := vlib.Split(c.Stream, cuts)
-		if got := traceRec(sharedEngine, c.Client, segs); got != wantRec {
+		if got := traceRec(eng, c.Client, segs); got != wantRec {
 			return fmt.Errorf("recording Processor: trace depends on segmentation (cuts %v of %d bytes): %s", cuts, len(c.Stream), firstDiff(wantRec, got))
 		}
-		if got := traceReal(c.Client, segs); got != wantReal {
+		if got := traceReal(c.Client, segs, c.MaxBody); got != wantReal {
 			return fmt.Errorf("real Processor: delivered messages depend on segmentation (cuts %v of %d bytes): %s", cuts, len(c.Stream), firstDiff(wantReal, got))
 		}
 		return nil
@@ -313,6 +336,7 @@ func gen(t *rapid.T) Case {
 		stream = []byte("G")
 	}
 	c.Stream = stream
+	c.MaxBody = rapid.SampledFrom([]int{0, 0, 0, 1, 16, 64, 1000}).Draw(t, "maxbody")
 	if len(stream) <= 512 && rapid.IntRange(0, 9).Draw(t, "allsingle") == 0 {
 		c.AllSingle = true
 	} else {
